@@ -1,5 +1,6 @@
 import ThriftVerif.Gen.Std
 import ThriftVerif.Gen.StdLemmas
+import ThriftVerif.Gen.SchemaCheck
 import ThriftVerif.Core.WireLemmas
 /-
   C02 — generated Read/Write implement the Thrift wire format of the IDL.
@@ -111,4 +112,10 @@ example : write exProg 0 (.strct [.int 5, .bytes [97], .list [.int 7]]) =
     .ok [8, 0, 1, 0, 0, 0, 5, 11, 0, 2, 0, 0, 0, 1, 97, 15, 0, 3, 10, 0, 0, 0, 1, 0, 0, 0, 0, 0, 0, 0, 7, 0] := by
   rfl
 
+end Props.C02
+
+namespace Props.C02
+open Gen Gen.Std
+/- non-vacuity of the round-trip theorem's premises: the example schema is accepted by the checker -/
+example : SchemaOK exProg := schemaOkB_sound exProg (by decide)
 end Props.C02
